@@ -227,7 +227,7 @@ func (w *World) isRepoFn(fn *ssa.Function) bool {
 	if r.Package() == nil {
 		return false
 	}
-	return strings.HasPrefix(r.Package().Pkg.Path(), modulePath)
+	return strings.HasPrefix(r.Package().Pkg.Path(), modulePath) || r.Package().Pkg.Path() == "fix"
 }
 
 // storesTo lists Store instructions in fn whose address term equals loc.
@@ -266,4 +266,36 @@ func fnNames(fs []*ssa.Function) string {
 		s = append(s, fnName(f))
 	}
 	return strings.Join(s, ", ")
+}
+
+// fieldByName finds a struct field in any analysed package by type and field name.
+func (w *World) fieldByName(typ, field string) (*types.Var, error) {
+	for _, p := range w.All {
+		if obj, ok := p.Types.Scope().Lookup(typ).(*types.TypeName); ok {
+			if st, ok := obj.Type().Underlying().(*types.Struct); ok {
+				for i := 0; i < st.NumFields(); i++ {
+					if st.Field(i).Name() == field {
+						return st.Field(i), nil
+					}
+				}
+			}
+		}
+	}
+	return nil, anchorErr{typ + "." + field}
+}
+
+func oblContainerAlloc(in ssa.Instruction) (string, bool) {
+	var x ssa.Value
+	switch v := in.(type) {
+	case *ssa.IndexAddr:
+		x = v.X
+	case *ssa.Slice:
+		x = v.X
+	default:
+		return "", false
+	}
+	if al, ok := x.(*ssa.Alloc); ok {
+		return al.Comment, true
+	}
+	return "", false
 }
